@@ -191,7 +191,13 @@ impl Archive {
     /// Return the last completely-written band id, if any.
     pub async fn last_complete_band(&self) -> Result<Option<Band>> {
         for band_id in self.list_band_ids().await?.into_iter().rev() {
-            let b = Band::open(self, band_id).await?;
+            let b = match Band::open(self, band_id).await {
+                Ok(b) => b,
+                // An interrupted backup can leave a band directory whose head was never
+                // (completely) written. That is not a complete band: keep looking back.
+                Err(Error::BandHeadMissing { .. }) | Err(Error::DeserializeJson { .. }) => continue,
+                Err(err) => return Err(err),
+            };
             if b.is_closed().await? {
                 return Ok(Some(b));
             }
